@@ -59,3 +59,32 @@ size_t peek_ha_respqueue(const KSI_AsyncService *s) {
 size_t peek_handle_ref(const KSI_AsyncHandle *h) { return h ? h->ref : 0; }
 int peek_handle_state(const KSI_AsyncHandle *h) { return h ? h->state : -1; }
 size_t peek_ctx_handle_recycle(KSI_CTX *ctx) { return ctx ? KSI_AsyncHandleList_length(ctx->asyncHandleRecycle) : 0; }
+
+#include <ksi/tlv.h>
+#include <ksi/tlv_template.h>
+#include <stdlib.h>
+#include <string.h>
+KSI_IMPORT_TLV_TEMPLATE(KSI_AggregationHashChain);
+
+size_t peek_chain_bytes(KSI_CTX *ctx, KSI_AggregationHashChain *ch, unsigned char **out) {
+	KSI_TLV *t = NULL;
+	unsigned char *buf = NULL;
+	size_t len = 0;
+	if (KSI_TLV_new(ctx, 0x0801, 0, 0, &t) != KSI_OK) return 0;
+	if (KSI_TlvTemplate_construct(ctx, t, ch, KSI_TLV_TEMPLATE(KSI_AggregationHashChain)) != KSI_OK || KSI_TLV_serialize(t, &buf, &len) != KSI_OK) { KSI_TLV_free(t); return 0; }
+	*out = malloc(len ? len : 1);
+	memcpy(*out, buf, len);
+	KSI_free(buf);
+	KSI_TLV_free(t);
+	return len;
+}
+
+#include <ksi/tlv_element.h>
+#include "impl/meta_data_element_impl.h"
+size_t peek_link_metadata(KSI_HashChainLink *l, unsigned char *buf, size_t cap) {
+	KSI_MetaDataElement *md = NULL;
+	size_t len = 0;
+	if (KSI_HashChainLink_getMetaData(l, &md) != KSI_OK || md == NULL) return 0;
+	if (KSI_TlvElement_serialize(md->impl, buf, cap, &len, KSI_TLV_OPT_NO_HEADER) != KSI_OK) return 0;
+	return len;
+}
